@@ -267,6 +267,8 @@ pub(crate) fn gcd_in_place(
             x = trim_leading_zeros(x);
             y = trim_leading_zeros(y);
             if cmp_in_place(x, y).is_le() {
+                #[cfg(dashu_verif)]
+                crate::verif_probe::hit(4);
                 mem::swap(&mut x, &mut y);
                 swapped = !swapped;
             }
@@ -397,6 +399,8 @@ pub fn gcd_ext_in_place(
                 &mut memory,
             ) as Word;
             if q_top > 0 {
+                #[cfg(dashu_verif)]
+                crate::verif_probe::hit(7);
                 t_carry += mul::add_mul_word_in_place(
                     &mut t0[q_lo.len()..qt1_len.min(lhs_len)],
                     q_top,
@@ -439,6 +443,8 @@ pub fn gcd_ext_in_place(
 
             // make sure x > y
             if cmp_in_place(x, y).is_le() {
+                #[cfg(dashu_verif)]
+                crate::verif_probe::hit(5);
                 mem::swap(&mut x, &mut y);
                 mem::swap(&mut t0, &mut t1);
                 mem::swap(&mut t0_len, &mut t1_len);
